@@ -24,11 +24,17 @@ End ChartInd.
 
 (* ------------------------------------------------------------------ sid maps *)
 
+Lemma step_eqb_eq a b : step_eqb a b = true <-> a = b.
+Proof.
+  destruct a as [n i], b as [m j]. unfold step_eqb. simpl. rewrite andb_true_iff, String.eqb_eq, Nat.eqb_eq.
+  split; [intros [-> ->]; auto|intros E; inversion E; auto].
+Qed.
+
 Lemma sid_eqb_eq a b : sid_eqb a b = true <-> a = b.
 Proof.
   revert b. induction a as [|x a IH]; intros [|y b]; simpl; split; try discriminate; auto.
-  - intros E. apply andb_prop in E. destruct E as [E1 E2]. apply Nat.eqb_eq in E1. apply IH in E2. now subst.
-  - intros E. inversion E; subst. rewrite Nat.eqb_refl. simpl. now apply IH.
+  - intros E. apply andb_prop in E. destruct E as [E1 E2]. apply step_eqb_eq in E1. apply IH in E2. now subst.
+  - intros E. inversion E; subst. rewrite (proj2 (step_eqb_eq y y) eq_refl). simpl. now apply IH.
 Qed.
 
 Lemma sid_eqb_refl a : sid_eqb a a = true.
@@ -73,13 +79,14 @@ Qed.
 
 Section DepsGo.
   Variables (id : sid) (full : string) (values rel caps : val).
-  Fixpoint deps_go (ds : list chart) (i : nat) (tpls : tmap) (store : smap) (subs : list (string * stree))
+  Fixpoint deps_go (ds : list chart) (seen : list string) (tpls : tmap) (store : smap) (subs : list (string * stree))
            {struct ds} : tmap * smap * list (string * stree) :=
     match ds with
     | [] => (tpls, store, subs)
     | d :: rest =>
-        let '(tp, sto, nd) := rec_all_tpls d false (id ++ [i])%list full values rel caps tpls store in
-        deps_go rest (S i) tp sto (aset (ch_name d) nd subs)
+        let id' := (id ++ [(ch_name d, count_name (ch_name d) seen)])%list in
+        let '(tp, sto, nd) := rec_all_tpls d false id' full values rel caps tpls store in
+        deps_go rest (ch_name d :: seen) tp sto (aset (ch_name d) nd subs)
     end.
 End DepsGo.
 
@@ -90,23 +97,24 @@ Lemma rec_all_tpls_unfold n ty me ts fs ds root id pfull pv rel caps tpls store 
   rec_all_tpls (Chart n ty me ts fs ds) root id pfull pv rel caps tpls store =
   let full := chart_full root pfull n in
   let values := if root then pv else child_values pv n in
-  let '(tpls1, store1, subs) := deps_go id full values rel caps ds 0 tpls store [] in
+  let '(tpls1, store1, subs) := deps_go id full values rel caps ds [] tpls store [] in
   let node := SNode id (chart_entry me root) (new_files fs) rel caps values subs in
   (add_templates (is_library ty) full id ts tpls1, (id, node) :: store1, node).
 Proof. reflexivity. Qed.
 
 Section EntriesGo.
   Variables (id : sid) (full : string).
-  Fixpoint entries_go (ds : list chart) (i : nat) {struct ds} : list (string * renderable) :=
+  Fixpoint entries_go (ds : list chart) (seen : list string) {struct ds} : list (string * renderable) :=
     match ds with
     | [] => []
-    | d :: rest => (tree_entries d false (id ++ [i])%list full ++ entries_go rest (S i))%list
+    | d :: rest => (tree_entries d false (id ++ [(ch_name d, count_name (ch_name d) seen)])%list full
+                    ++ entries_go rest (ch_name d :: seen))%list
     end.
 End EntriesGo.
 
 Lemma tree_entries_unfold n ty me ts fs ds root id pfull :
   tree_entries (Chart n ty me ts fs ds) root id pfull =
-  (entries_go id (chart_full root pfull n) ds 0 ++ own_entries (is_library ty) (chart_full root pfull n) id ts)%list.
+  (entries_go id (chart_full root pfull n) ds [] ++ own_entries (is_library ty) (chart_full root pfull n) id ts)%list.
 Proof. reflexivity. Qed.
 
 (* ------------------------------------------------------------------ (b) template names are unique *)
@@ -130,11 +138,11 @@ Proof.
             NoDup (map fst (fst (fst (deps_go id full values rel caps ds i tpls store subs))))).
   { clear. induction ds as [|d rest IHd]; intros i tpls store subs Hf Hnd; simpl; auto.
     inversion Hf as [|? ? Hd Hrest]; subst.
-    specialize (Hd false (id ++ [i])%list full values rel caps tpls store Hnd).
-    destruct (rec_all_tpls d false (id ++ [i])%list full values rel caps tpls store) as [[tp sto] nd]. simpl in Hd.
+    specialize (Hd false (id ++ [(ch_name d, count_name (ch_name d) i)])%list full values rel caps tpls store Hnd).
+    destruct (rec_all_tpls d false (id ++ [(ch_name d, count_name (ch_name d) i)])%list full values rel caps tpls store) as [[tp sto] nd]. simpl in Hd.
     apply IHd; auto. }
-  specialize (Hgo ds 0 tpls store [] IH Hnd).
-  destruct (deps_go id full values rel caps ds 0 tpls store []) as [[tpls1 store1] subs]. simpl in *.
+  specialize (Hgo ds [] tpls store [] IH Hnd).
+  destruct (deps_go id full values rel caps ds [] tpls store []) as [[tpls1 store1] subs]. simpl in *.
   now apply add_templates_nodup.
 Qed.
 
